@@ -247,6 +247,7 @@ type c12FloodCase struct {
 	L1     int    `json:"flood_1"`
 	L2     int    `json:"flood_2"`
 	Flooders int  `json:"flooders"`
+	LiveFirst bool `json:"flooder_signs_the_live_round_first"`
 }
 
 type c12CacheStats struct {
@@ -317,7 +318,11 @@ func c12FloodRun(run *vfRun, c c12FloodCase) {
 	prevOf := func() []byte { return seed } // honest nodes always carry the last signature, also in unchained schemes
 	// t-2 honest members' partials for round 1 arrive before the flood (the victim's own is cached by its tick)
 	honestBefore := 0
-	for m := 1; m <= c.Thr-2; m++ {
+	lim := c.Thr - 2
+	if c.LiveFirst {
+		lim = c.Thr - 3 // own + (t-3) honest + the flooder's own genuine partial = t-1 cached before the flood
+	}
+	for m := 1; m <= lim; m++ {
 		if err := nt.Deliver(m, v, nt.packet(1, prevOf(), nt.signPartial(m, 1, prevOf())), "honest"); err != nil {
 			run.Inconclusive("honest partial refused before the flood: " + err.Error())
 			return
@@ -328,6 +333,18 @@ func c12FloodRun(run *vfRun, c c12FloodCase) {
 	if atomic.LoadInt64(&puts) != 0 {
 		run.Inconclusive("round 1 aggregated before the flood")
 		return
+	}
+	if c.LiveFirst {
+		// the flooder's genuine partial for the round being aggregated becomes the OLDEST entry of its list:
+		// it is the first one its own flood evicts, which must not take the other members' partials with it
+		for _, f := range flooders[:1] {
+			_ = nt.Deliver(f, v, nt.packet(1, prevOf(), nt.signPartial(f, 1, prevOf())), "adversary")
+		}
+		nt.Settle()
+		if atomic.LoadInt64(&puts) != 0 { // threshold reached by own + honest + flooder: pick a case with a higher threshold
+			run.Eval("")
+			return
+		}
 	}
 	flood := func(L int) c12CacheStats {
 		for i := 0; i < L; i++ {
@@ -365,8 +382,11 @@ func c12FloodRun(run *vfRun, c c12FloodCase) {
 			fmt.Sprintf("after %d flood partials: %d round caches, longest per-member list %d; after %d: %d / %d (documented per-member limit %d)", c.L1, s1.rounds, s1.rcvdMax, c.L2, s2.rounds, s2.rcvdMax, MaxPartialsPerNode), info)
 	}
 	// the honest partials of the round being aggregated must have survived: the t-th arrives now
-	if err := nt.Deliver(c.Thr-1, v, nt.packet(1, prevOf(), nt.signPartial(c.Thr-1, 1, prevOf())), "honest"); err != nil {
-		run.Note("last honest partial refused: " + err.Error())
+	// (the flooder's own partial for that round is legitimately lost to its own flood, so without it)
+	for m := lim + 1; m <= c.Thr-1; m++ {
+		if err := nt.Deliver(m, v, nt.packet(1, prevOf(), nt.signPartial(m, 1, prevOf())), "honest"); err != nil {
+			run.Note("late honest partial refused: " + err.Error())
+		}
 	}
 	for i := 0; i < 100 && atomic.LoadInt64(&puts) == 0; i++ {
 		time.Sleep(10 * time.Millisecond)
@@ -397,7 +417,7 @@ func TestVF_C12_Flood(t *testing.T) {
 			if nt[0]-nt[1] >= 2 && i%2 == 1 {
 				f = 2
 			}
-			cases = append(cases, c12FloodCase{Index: i, Scheme: sch.Name, N: nt[0], Thr: nt[1], L1: vfPick(300, 1000), L2: vfPick(1200, 5000), Flooders: f})
+			cases = append(cases, c12FloodCase{Index: i, Scheme: sch.Name, N: nt[0], Thr: nt[1], L1: vfPick(300, 1000), L2: vfPick(1200, 5000), Flooders: f, LiveFirst: i%2 == 0})
 			i++
 		}
 	}
